@@ -123,8 +123,8 @@ def run(ctx):
 
     # 5 conformance -----------------------------------------------------------------------------------
     nshard = ctx.pick(4, 12)
-    nvar = ctx.pick(2, 7)
-    nrand = ctx.pick(2000, 40000)
+    nvar = ctx.pick(2, 5)
+    nrand = ctx.pick(2000, 10000)
     obs = os.path.join(d, "obs.ndjson")
     t0 = time.time()
     shards = _run_shards(ctx, tb, table, d, nshard, nvar, nrand, obs)
